@@ -34,6 +34,11 @@ pub static START: OnceLock<Instant> = OnceLock::new();
 pub static PROGRESS: AtomicU64 = AtomicU64::new(0);
 /// logical clock shared by the threads of a scenario ("tick" bumps it, "wait_tick" spins until it reaches n)
 pub static TICK: AtomicU64 = AtomicU64::new(0);
+/// rendezvous counters ("meet": every participating thread bumps counter k and spins until n threads have arrived)
+static MEET: [AtomicU64; 4096] = {
+    const Z: AtomicU64 = AtomicU64::new(0);
+    [Z; 4096]
+};
 /// contexts with an id >= 1_000_000 are shared by all threads of the scenario
 static SHARED_CTXS: OnceLock<Mutex<HashMap<i64, Context>>> = OnceLock::new();
 pub static OUT: OnceLock<Mutex<File>> = OnceLock::new();
@@ -738,6 +743,20 @@ impl Interp {
             }
             "tick" => {
                 TICK.fetch_add(1, Ordering::SeqCst);
+            }
+            "meet" => {
+                // spin rendezvous of n threads at meeting point k: they leave within a few nanoseconds of each other
+                let k = (j.get("k").int() as usize) % 4096;
+                let n = j.get("n").int() as u64;
+                MEET[k].fetch_add(1, Ordering::SeqCst);
+                let mut spins: u64 = 0;
+                while MEET[k].load(Ordering::SeqCst) < n && spins < 2_000_000_000 {
+                    std::hint::spin_loop();
+                    spins += 1;
+                    if spins % 4096 == 0 {
+                        std::thread::yield_now();
+                    }
+                }
             }
             "wait_tick" => {
                 // bounded spin on the logical clock: lets a registration land while other threads are in
